@@ -65,6 +65,56 @@ def run_human_min(scratch):
     return out
 
 
+def run_dynbuild_probe(scratch, group):
+    """Tie of YarlModel/DynBuild.lean (URL.build with arbitrary keyword objects and its conflict checks, without_query_params with
+    non-str names, the bool flags given as arbitrary objects) to the code: 878 probe rows evaluated by the Lean model and by the real
+    library on both backends."""
+    out = {"failures": [], "stats": {}, "samples": [], "notes": []}
+    script = os.path.join(SUB, "dynbuild_probe.py")
+    try:
+        src = subprocess.run([core.PY, script, "lean"], capture_output=True, text=True, timeout=120)
+        if src.returncode != 0:
+            out["notes"].append("dynbuild probe: could not generate the Lean table: " + src.stderr[-200:])
+            return out
+        lean_file = os.path.join(scratch.dir, "dynbuild_probe.lean")
+        open(lean_file, "w").write(src.stdout)
+        r = subprocess.run(["lake", "env", "lean", lean_file], cwd=core.LEAN, capture_output=True, text=True, timeout=900)
+        model = [l for l in r.stdout.split("\n") if l.strip()]
+        rows = [l for l in subprocess.run([core.PY, script, "rows"], capture_output=True, text=True, timeout=120).stdout.split("\n") if l.strip()]
+        if r.returncode != 0 or len(model) != len(rows):
+            out["notes"].append("dynbuild probe: the Lean model did not evaluate the table (%d lines for %d rows): %s" % (len(model), len(rows), (r.stdout + r.stderr)[-300:]))
+            out["failures"].append({"what": "YarlModel/DynBuild.lean does not evaluate the probe table", "class": "tie-broken-dyn", "input": "dynbuild probe"})
+            return out
+    except Exception as ex:  # noqa
+        out["notes"].append("dynbuild probe unavailable: %r" % (ex,))
+        return out
+    n = 0
+    for b in _backends(scratch):
+        env = dict(os.environ)
+        env["PYTHONPATH"] = scratch.dir
+        env["PYTHONDONTWRITEBYTECODE"] = "1"
+        if b == "py":
+            env["YARL_NO_EXTENSIONS"] = "1"
+        else:
+            env.pop("YARL_NO_EXTENSIONS", None)
+        rr = subprocess.run([core.PY, script, "real"], capture_output=True, text=True, env=env, timeout=300, cwd=scratch.dir)
+        real = [l for l in rr.stdout.split("\n") if l.strip()]
+        if rr.returncode != 0 or len(real) != len(rows):
+            out["failures"].append({"what": f"dynbuild probe ({b}) died or printed {len(real)} lines for {len(rows)} rows: {rr.stderr[-300:]}", "class": "crash", "backend": b, "input": "dynbuild probe"})
+            continue
+        for row, m, x in zip(rows, model, real):
+            g = "C12" if "without_query_params" in row else "C19"
+            if g != group:
+                continue
+            n += 1
+            if m != x:
+                out["failures"].append({"what": f"{row}: the library answers {x!r}, the model (YarlModel/DynBuild.lean) {m!r}", "class": "dyn-dispatch", "backend": b, "input": row})
+    out["stats"] = {"dynbuild_probe_rows": n, "evaluations": n}
+    out["samples"] = [{"dynbuild_probe_rows_checked": n}]
+    out["failures"] = out["failures"][:10]
+    return out
+
+
 def run_dyn_probe(scratch, group):
     """Tie of YarlModel/Dyn.lean (Python-level dispatch: non-URL comparisons, wrong-typed arguments, query argument kinds) to
     the code: the probe table is evaluated by the Lean model (`lake env lean`) and by the real library on both backends; the
